@@ -3,6 +3,7 @@ C08 — names() yields the names in discriminant order, aligned with iter() and 
 -/
 import EnumToolsModel.Thm.C06
 import EnumToolsModel.Thm.C04
+import EnumToolsModel.Lemmas.TemplatesEq
 namespace ET.Thm
 
 /-- a forwarding iterator is the cursor over its list, for any history -/
@@ -48,5 +49,10 @@ theorem C08_len (D : Derive) : (spec.names D.sem).length = D.numValues ∧ (spec
 /-- non-vacuity: names of a renamed enum, consumed from both ends -/
 example : IterState.run (fun _ => .ok none) (fun _ => .ok none) (namesInit exD1) [.nextBack, .next, .len]
     = .ok (.cursor [[98, 98], [67], [68], [69]], [.item (some [70]), .item (some [65]), .len 4]) := by decide
+
+/-- `names()` as the source is written now: the struct is built over the name table, i.e. the names in discriminant order -/
+theorem C08_source (D : Derive) (tg : Target) (md : Modes) :
+    T.names D tg md = .ok (.cursor (spec.names D.sem)) := by
+  rw [T.names_eq, (C08_names D (fun _ => .ok none) (fun _ => .ok none) [] .fold).1]
 
 end ET.Thm
